@@ -60,6 +60,8 @@ type c17w struct {
 	seenConns int
 	connacked bool
 	subs      map[string]packet.QOS // what the broker holds for the current connection
+	prevSubs  map[string]packet.QOS // ... and what it held for the previous one
+	resumedConn bool                // the current connection was accepted with session present
 	pending   []packet.Generic      // requests not yet answered (withhold mode)
 	withhold  bool
 	failNextSuback bool
@@ -132,6 +134,8 @@ func (s *c17w) pump() string {
 			// a new connection was dialled: the broker starts from an empty table (the service's config asks for a clean session)
 			s.seenConns = len(s.n.conns)
 			s.connacked = false
+			s.resumedConn = false
+			s.prevSubs = s.subs // kept for a broker that resumes the session (connack with session present)
 			s.subs = map[string]packet.QOS{}
 			s.pending = nil
 		}
@@ -296,7 +300,9 @@ func (s *c17w) check() {
 				allSeen = false
 			}
 		}
-		if allSeen && !s.tableExplained() {
+		if allSeen && !s.tableExplained() && s.staleAfterFailedUnsubscribe() {
+			s.x.Failf("subscriptions-reestablished", "stale-subscription-after-failed-unsubscribe:resumed-session", "online and idle after %s on a connection the broker accepted with session present: the broker still holds [%s], the calls made so far give [%s] - an Unsubscribe whose packet could not be written is forgotten by the service (its future is cancelled), and nothing removes the subscription from a broker that kept the session", s.evname, subsStr(s.subs), subsStr(s.effectiveRef(nil)))
+		} else if allSeen && !s.tableExplained() {
 			s.x.Failf("subscriptions-reestablished", "table-differs", "online and idle after %s: the broker holds [%s] for this connection, the subscribe/unsubscribe calls made so far give [%s]", s.evname, subsStr(s.subs), subsStr(s.effectiveRef(nil)))
 		}
 	}
@@ -329,6 +335,37 @@ func (s *c17w) effectiveRef(skip map[*cmd]bool) map[string]packet.QOS {
 		}
 	}
 	return ref
+}
+
+// staleAfterFailedUnsubscribe: on a resumed broker session the only difference is subscriptions the broker still holds
+// although the last call for the topic was an Unsubscribe whose dispatch failed (future cancelled, packet never arrived).
+func (s *c17w) staleAfterFailedUnsubscribe() bool {
+	if !s.resumedConn {
+		return false
+	}
+	ref := s.effectiveRef(nil)
+	for t, q := range ref {
+		if got, ok := s.subs[t]; !ok || got != q {
+			return false // something is missing: not this situation
+		}
+	}
+	n := 0
+	for t := range s.subs {
+		if _, ok := ref[t]; ok {
+			continue
+		}
+		var last *cmd
+		for _, c := range s.cmds {
+			if !c.dropped && (c.kind == "sub" || c.kind == "unsub") && c.topic == t {
+				last = c
+			}
+		}
+		if last == nil || last.kind != "unsub" || last.seen || last.w == nil || !last.w.resolved || last.w.err == nil {
+			return false
+		}
+		n++
+	}
+	return n > 0
 }
 
 // tableExplained: the broker's table equals the fold of the calls made so far. A call whose dispatch failed at the write
@@ -379,6 +416,9 @@ func c17(x *explore.X, pr c17params) {
 			if cn != nil && cn.open() {
 				if !s.connacked {
 					evs = append(evs, "connack(0)")
+					if len(s.n.conns) > 1 {
+						evs = append(evs, "connack(0,session-present)")
+					}
 					if pr.Faults {
 						evs = append(evs, "connack(5)")
 					}
@@ -445,6 +485,18 @@ func c17(x *explore.X, pr c17params) {
 			} else {
 				x.Failf("calls-return", "publish-blocked", "Service.Publish did not return")
 			}
+		case ev == "connack(0,session-present)":
+			// the broker still has the session: its table is the one of the previous connection (a subscribe that was on
+			// the wire when that connection broke is not in it - the resubscription has to repair that)
+			s.connacked = true
+			s.resumedConn = true
+			s.firstAfterConnack = s.expectsResubscribe()
+			for t, q := range s.prevSubs {
+				s.subs[t] = q
+			}
+			ca := packet.NewConnack()
+			ca.SessionPresent = true
+			cn.B.Send(ca, false)
 		case ev == "connack(0)":
 			s.connacked = true
 			s.firstAfterConnack = s.expectsResubscribe()
